@@ -9,7 +9,7 @@ def gen(rng: random.Random, tier: str):
     reps = {"quick": 2, "thorough": 12}[tier]
     for _ in range(reps):
         for nj in jobs:
-            yield {"kind": "batch", "n_jobs": nj, "form": rng.choice(["list", "dict", "collection", "frame"]), "n_keys": rng.choice([0, 1, 3, 6, 9]), "dup": rng.random() < 0.3,
+            yield {"kind": "batch", "n_jobs": nj, "form": rng.choice(["list", "dict", "collection", "frame", "collection2"]), "n_keys": rng.choice([0, 1, 3, 6, 9]), "dup": rng.random() < 0.3,
                    "op": rng.choice(["recommend", "predict", "score"]), "fail_at": rng.choice([None, None, 0, 2]), "seed": rng.randrange(10**6), "pipeline": rng.choice(["table", "iknn"]),
                    "n": rng.choice([3, 3, None, 0, 1, 50])}
             yield {"kind": "invoker", "n_jobs": nj, "tasks": rng.choice([[], [3], list(range(7)), [5, 5, 1, 1, 9], list(range(20))]), "fail_at": rng.choice([None, None, 1]), "seed": rng.randrange(10**6)}
@@ -18,6 +18,9 @@ def gen(rng: random.Random, tier: str):
     yield {"kind": "invoker", "n_jobs": top, "tasks": list(range(7)), "fail_at": rng.choice([0, 3, 6]), "seed": rng.randrange(10**6)}
     for n_ in (0, None):          # directed: a zero-length request and the pipeline's own default length
         yield {"kind": "batch", "n_jobs": rng.choice(jobs), "form": "list", "n_keys": 3, "dup": False, "op": "recommend", "fail_at": None, "seed": rng.randrange(10**6), "pipeline": "table", "n": n_}
+    yield {"kind": "invoker", "n_jobs": top, "tasks": [1, 2, 3], "fail_at": None, "seed": rng.randrange(10**6), "unshippable": True}
+    for op_ in ("recommend", "predict"):          # directed: keys with fields beyond the user, sequentially and in a pool
+        yield {"kind": "batch", "n_jobs": 1 if op_ == "recommend" else top, "form": "collection2", "n_keys": 4, "dup": False, "op": op_, "fail_at": None, "seed": rng.randrange(10**6), "pipeline": "table", "n": 3}
     yield {"kind": "batch", "n_jobs": top, "form": "dict", "n_keys": 6, "dup": False, "op": "predict", "fail_at": rng.choice([0, 2, 5]), "seed": rng.randrange(10**6), "pipeline": "table"}
     for nj in sorted(set([1, top])):
         for order in (["predict", "recommend"], ["recommend", "predict"], ["score", "recommend", "predict"]):
@@ -98,6 +101,32 @@ def run(case: dict, lean: Lean) -> Outcome:
         seq_vals = [None if t < 0 else work(model, t) for t in tasks]
         m = lean.call("c12.batch", {"keys": [int(t) for t in tasks], "outcomes": [None if v is None else tag(repr(v)) for v in seq_vals], "order": order})
         real = None
+        import gc, multiprocessing as mp, threading, time
+        before = {p.pid for p in mp.active_children()}
+        def leftover():
+            # whatever the invoker started (workers, the shared-memory manager) must be gone once it has been left — by its own
+            # clean-up, not by a garbage collection that happens to run later (collection is switched off while we look)
+            for _ in range(40):
+                left = [p for p in mp.active_children() if p.pid not in before]
+                if not left: return []
+                time.sleep(0.05)
+            return left
+        if case.get("unshippable") and nj >= 2:
+            # a model that cannot be shipped to the workers: the error surfaces, and nothing the invoker started stays behind
+            classes.append("model that cannot be shipped"); bad_model = dict(model, guard=threading.Lock())
+            gc.disable()
+            try:
+                try:
+                    with silence_fd1():
+                        with invoker(bad_model, work, n_jobs=nj) as inv: list(inv.map(tasks or [1]))
+                    failed.append("a model that cannot be serialised for the workers raised nothing")
+                except Exception: pass
+                left = leftover()
+                if left: failed.append(f"{len(left)} process(es) started by the invoker are still running after the failed set-up: {[p.name for p in left][:3]}")
+            finally: gc.enable()
+            for p in mp.active_children():
+                if p.pid not in before: p.terminate()
+            return Outcome(not failed, not failed, tuple(classes), {"failed": failed}, None)
         try:
             with silence_fd1():
                 with invoker(model, work, n_jobs=nj) as inv: out = list(inv.map(tasks))
@@ -110,6 +139,9 @@ def run(case: dict, lean: Lean) -> Outcome:
         except Exception as e:
             real = {"error": type(e).__name__}
             failed.append(f"invoker raised {type(e).__name__}: {str(e)[:60]}")
+        if nj >= 2:
+            left = leftover()
+            if left: failed.append(f"{len(left)} process(es) started by the invoker are still running after it was left")
         mm = m["batch"]; model_says = {"error": True} if "error" in mm else {"ok": mm["ok"]}
         if real != model_says: failed.append(f"collector model predicts {json.dumps(model_says)[:120]}, implementation gave {json.dumps(real)[:120]}")
         if not tasks: classes.append("no tasks")
@@ -166,10 +198,17 @@ def run(case: dict, lean: Lean) -> Outcome:
     test = {u: ItemList(item_ids=rnd.sample(V, 4) + [7777]) for u in dict.fromkeys(reqs)}
     op = case["op"] if case["form"] != "list" else "recommend"
     form = case["form"]
-    arg = (list(reqs) if form == "list" else {u: test[u] for u in test} if form == "dict"
+    if form == "collection2":
+        # keys that carry more than the user: (user_id, seq) — the user may recur, each key is its own request for that user
+        ks = list(test) + (list(test)[:1] if len(test) >= 2 else [])
+        arg = ItemListCollection(["user_id", "seq"])
+        for sq, u in enumerate(ks): arg.add(test[u], user_id=u, seq=sq)
+        classes.append("keys with fields beyond the user")
+    else: ks = None
+    arg = arg if form == "collection2" else (list(reqs) if form == "list" else {u: test[u] for u in test} if form == "dict"
            else ItemListCollection.from_dict({u: test[u] for u in test}, key="user_id") if form == "collection"
            else pd.DataFrame([(u, int(i)) for u in test for i in test[u].ids()], columns=["user_id", "item_id"]))
-    keys_in = list(reqs) if form == "list" else (list(test) if form in ("dict", "collection") else sorted(test))
+    keys_in = ks if form == "collection2" else list(reqs) if form == "list" else (list(test) if form in ("dict", "collection") else sorted(test))
     n_req = case.get("n", 3)
     classes += ["form:" + form, "op:" + op] + ([f"recommend n={n_req}"] if op == "recommend" else [])
     if not reqs: classes.append("no keys")
